@@ -4,32 +4,42 @@
 (* library.  Every case in CASES carries the inputs (program AST with      *)
 (* locations, tree, matches and regex tables from the trusted oracle,      *)
 (* globals, mode, configuration, cancellation point) and the event trace   *)
-(* recorded by the hooks.  The machine of TSGExec is run on the same       *)
-(* inputs; each step's events are matched against the recorded trace       *)
-(* (mechanism level), the property invariants are evaluated in every       *)
-(* state, and the expected outcome is printed for the driver, which        *)
-(* compares it with the real outcome at property level.                    *)
+(* recorded by the hooks; a case may continue with `next` runs that        *)
+(* execute into the same graph (execute_into histories).  The machine of   *)
+(* TSGExec is run on the same inputs; each step's events are matched       *)
+(* against the recorded trace (mechanism level), the property invariants   *)
+(* are evaluated in every state, an observed state is folded from the      *)
+(* recorded events alone, and the expected outcome is printed for the      *)
+(* driver, which compares it with the real outcome at property level.      *)
 (***************************************************************************)
-EXTENDS TSGExec, Json, IOUtils
+EXTENDS TSGExec, TSGStatic, Json, IOUtils
 
 Cases == ndJsonDeserialize(IOEnv.CASES)
 Trees == JsonDeserialize(IOEnv.TREES)
 
 VARIABLES ci,     \* index of the case this behaviour validates
+          ri,     \* index of the run within the case (execute_into history)
           s,      \* machine state
           l,      \* number of recorded events matched so far
           drift,  \* 0, or the 1-based position of the first recorded event the machine disagrees with
-          dexp    \* the machine's event at that position (<<>> if the machine emitted none there)
+          dexp,   \* the machine's event at that position (<<>> if the machine emitted none there)
+          facts,  \* scoped-variable resolution facts (sget events) emitted by the machine in this run
+          pollsby,\* polls of the machine in this run, by label
+          obs     \* observed state folded from the RECORDED events of the earlier runs of this case
 
-vars == <<ci, s, l, drift, dexp>>
+vars == <<ci, ri, s, l, drift, dexp, facts, pollsby, obs>>
 
-Case == Cases[ci]
-Tree == Trees[Case.src].nodes
+RECURSIVE RunOf(_, _)
+RunOf(c, r) == IF r = 1 THEN c ELSE RunOf(c.next, r - 1)
+
+Run == RunOf(Cases[ci], ri)
+Tree == Trees[Cases[ci].src].nodes
+HasNext == "next" \in DOMAIN Run
 
 RecEv(c, i) ==
   LET r == c.events[i] IN IF r.e = "attr" THEN [r EXCEPT !.val = FromJ(@)] ELSE r
 
-\* position (1-based, in the recorded trace) of the first disagreement between chunk and c.events[l+1..], 0 if none
+\* position (1-based, in the recorded trace) of the first disagreement between chunk and c.events[l0+1..], 0 if none
 FirstMismatch(c, chunk, l0) ==
   LET n == Len(chunk)
       bad == {k \in 1..n : \/ l0 + k > Len(c.events)
@@ -37,28 +47,67 @@ FirstMismatch(c, chunk, l0) ==
                            \/ RecEv(c, l0 + k) # chunk[k]}
   IN IF bad = {} THEN 0 ELSE l0 + (CHOOSE k \in bad : \A j \in bad : k <= j)
 
-Runnable(i) == "outcome" \in DOMAIN Cases[i] /\ "skip" \notin DOMAIN Cases[i]
-               /\ Cases[i].outcome.status \notin {"load_err", "load_panic"}
+RECURSIVE AllRunnable(_)
+AllRunnable(c) ==
+  /\ "outcome" \in DOMAIN c /\ "skip" \notin DOMAIN c
+  /\ c.outcome.status \notin {"load_err", "load_panic"}
+  /\ ("next" \in DOMAIN c => AllRunnable(c.next))
+
+\* ------------------------------------------------------------ observed state (from recorded events only)
+ObsInit == [n |-> 0, dense |-> TRUE, edges |-> {}, newok |-> TRUE, at |-> [x \in {} |-> 0],
+            conflict |-> FALSE, dangling |-> FALSE]
+ObsStep(o, ev) ==
+  CASE ev.e = "gnode" -> [o EXCEPT !.dense = @ /\ ev.id = o.n, !.n = @ + 1]
+    [] ev.e = "edge" ->
+         [o EXCEPT !.newok = @ /\ (ev.new = (<<ev.src, ev.dst>> \notin o.edges)),
+                   !.edges = @ \cup {<<ev.src, ev.dst>>},
+                   !.dangling = @ \/ ev.src >= o.n \/ ev.dst >= o.n]
+    [] ev.e = "attr" ->
+         LET key == <<ev.on, ev.src, ev.dst, ev.name>>  v == FromJ(ev.val) IN
+         IF key \in DOMAIN o.at THEN [o EXCEPT !.conflict = @ \/ o.at[key] # v]
+         ELSE [o EXCEPT !.at = MapPut(@, key, v),
+                        !.dangling = @ \/ ev.src >= o.n \/ (ev.on = "edge" /\ <<ev.src, ev.dst>> \notin o.edges)]
+    [] OTHER -> o
+RECURSIVE ObsFold(_, _, _)
+ObsFold(evs, i, o) == IF i > Len(evs) THEN o ELSE ObsFold(evs, i + 1, ObsStep(o, evs[i]))
+
+PollCount(chunk, pb) ==
+  LET labels == {chunk[k].at : k \in {j \in 1..Len(chunk) : chunk[j].e = "poll"}} IN
+  [x \in (DOMAIN pb) \cup labels |->
+     (IF x \in DOMAIN pb THEN pb[x] ELSE 0) + Cardinality({k \in 1..Len(chunk) : chunk[k].e = "poll" /\ chunk[k].at = x})]
 
 Init ==
-  /\ ci \in {i \in 1..Len(Cases) : Runnable(i)}
+  /\ ci \in {i \in 1..Len(Cases) : AllRunnable(Cases[i])}
+  /\ ri = 1
   /\ s = InitState(Cases[ci], EmptyGraph)
   /\ l = 0
   /\ drift = 0
   /\ dexp = <<>>
+  /\ facts = {}
+  /\ pollsby = [x \in {} |-> 0]
+  /\ obs = ObsInit
 
 Advance(kind) ==
   /\ s.status = "run"
-  /\ StepKind(Case, s) = kind
-  /\ s' = Step(Case, Tree, s)
+  /\ StepKind(Run, s) = kind
+  /\ s' = Step(Run, Tree, s)
   /\ l' = l + Len(s'.w.ev)
-  /\ drift' = IF drift # 0 THEN drift ELSE FirstMismatch(Case, s'.w.ev, l)
+  /\ drift' = IF drift # 0 THEN drift ELSE FirstMismatch(Run, s'.w.ev, l)
   /\ dexp' = IF drift # 0 THEN dexp
-             ELSE LET fm == FirstMismatch(Case, s'.w.ev, l) IN IF fm = 0 THEN <<>> ELSE <<s'.w.ev[fm - l]>>
-  /\ UNCHANGED ci
+             ELSE LET fm == FirstMismatch(Run, s'.w.ev, l) IN IF fm = 0 THEN <<>> ELSE <<s'.w.ev[fm - l]>>
+  /\ facts' = facts \cup {s'.w.ev[k] : k \in {j \in 1..Len(s'.w.ev) : s'.w.ev[j].e = "sget"}}
+  /\ pollsby' = PollCount(s'.w.ev, pollsby)
+  /\ UNCHANGED <<ci, ri, obs>>
 
-StepKinds == {"init", "BeginMatch", "ForIter", "ScanIter", "BlockEnd", "let", "var", "set", "node", "edge",
-              "attrn", "attre", "print", "if", "for", "scan", "edges", "attrs", "prints", "store", "scoped"}
+\* the next run of an execute_into history starts from the graph the previous run left behind
+NextRun ==
+  /\ s.status # "run"
+  /\ HasNext
+  /\ ri' = ri + 1
+  /\ s' = InitState(Run.next, s.w.g)
+  /\ l' = 0 /\ drift' = 0 /\ dexp' = <<>> /\ facts' = {} /\ pollsby' = [x \in {} |-> 0]
+  /\ obs' = ObsFold(Run.events, 1, obs)
+  /\ UNCHANGED ci
 
 CheckGlobalsStep == Advance("init")
 BeginMatch == Advance("BeginMatch")
@@ -87,6 +136,7 @@ Next ==
   \/ ExecLet \/ ExecVar \/ ExecSet \/ ExecNode \/ ExecEdge \/ ExecAttrNode \/ ExecAttrEdge \/ ExecPrint
   \/ ExecIf \/ ExecFor \/ ExecScan
   \/ LazyEvalEdge \/ LazyEvalAttr \/ LazyEvalPrint \/ LazyForceStore \/ LazyForceScoped
+  \/ NextRun
 
 Spec == Init /\ [][Next]_vars
 
@@ -94,18 +144,33 @@ Spec == Init /\ [][Next]_vars
 \* (C09) edge lists strictly ascending by sink: at most one edge per ordered pair
 OutSorted ==
   \A i \in 1..s.w.g.n : \A p \in 1..(Len(s.w.g.out[i]) - 1) : s.w.g.out[i][p].sink < s.w.g.out[i][p + 1].sink
-\* graph is well formed: every sink is a node
 SinksExist == \A i \in 1..s.w.g.n : \A p \in 1..Len(s.w.g.out[i]) : s.w.g.out[i][p].sink < s.w.g.n
 GraphShape == Len(s.w.g.na) = s.w.g.n /\ Len(s.w.g.out) = s.w.g.n
-\* (C11) once cancelled, nothing more happens; the error is not wrapped
+\* (C11) a cancellation is reported bare, never inside a context
 CancelledIsBare == s.status = "cancelled" => s.err.chain = <<>>
+\* (C11) polls never exceed the firing point
+NoPollAfterFire == s.w.ca > 0 => s.w.np <= s.w.ca
 \* (C01) termination bound
 Bounded == s.steps <= 200000
+\* (C08) nothing forces a scoped name while matches are still being collected
+NoForceDuringCollect ==
+  (Run.mode = "lazy" /\ s.ph = "matches") => \A x \in DOMAIN s.w.ss : s.w.ss[x].st = "unforced"
+\* (C03) every match of every stanza begins exactly once (checked when the match phase is over)
+ExactlyOncePerMatch ==
+  (s.status = "ok" \/ s.ph \in {"edges", "attrs", "prints", "store", "scoped"}) =>
+     /\ \A i \in 1..Len(Run.matches) : \A j \in 1..Len(Run.matches[i].ms) :
+          Cardinality({k \in 1..Len(s.begun) : s.begun[k] = <<i, j>>}) = 1
+     /\ \A k \in 1..Len(s.begun) : s.begun[k][1] \in 1..Len(Run.matches)
+                                    /\ s.begun[k][2] \in 1..Len(Run.matches[s.begun[k][1]].ms)
+\* (C20) a failure inside a stanza always names the stanza, the matched node and a statement
+ErrorHasContext ==
+  (s.status = "err" /\ s.err.kind \notin {"MissingGlobalVariable", "ExpectedList", "Unsupported"}) =>
+     \E i \in 1..Len(s.err.chain) : s.err.chain[i].ck = "stmt"
 
 \* ------------------------------------------------------------ action properties
 \* (C09) nodes, edges and attribute values only grow; values never change (single assignment)
 AttrsStableStep ==
-  s.status = "run" /\ s'.status # "err" =>
+  (s.status = "run" /\ s'.status # "err" /\ ri' = ri) =>
     /\ s'.w.g.n >= s.w.g.n
     /\ \A i \in 1..s.w.g.n :
          /\ \A a \in DOMAIN s.w.g.na[i] : a \in DOMAIN s'.w.g.na[i] /\ s'.w.g.na[i][a] = s.w.g.na[i][a]
@@ -115,14 +180,20 @@ AttrsStableStep ==
               /\ \A a \in DOMAIN s.w.g.out[i][p].at :
                    a \in DOMAIN EdgeAttrs(s'.w.g, i - 1, j) /\ EdgeAttrs(s'.w.g, i - 1, j)[a] = s.w.g.out[i][p].at[a]
 AttrsStable == [][AttrsStableStep]_vars
-\* (C11) terminal states are absorbing
-TerminalAbsorbing == [][s.status = "run"]_vars
+\* (C09) a following run starts from exactly the graph the previous one left
+HistoryKeepsGraph == [][ri' # ri => s'.w.g = s.w.g]_vars
+\* (C11) terminal states are absorbing within a run
+TerminalAbsorbing == [][s.status # "run" => ri' = ri + 1]_vars
 
 \* ------------------------------------------------------------ report
+FinalObs == ObsFold(Run.events, 1, obs)
 Report ==
-  [id |-> Case.id, status |-> IF s.w.unsup # <<>> THEN "unsupported" ELSE s.status, missing |-> s.w.unsup,
-   kind |-> s.err.kind, chain |-> s.err.chain, g |-> s.w.g, drift |-> drift, dexp |-> dexp,
-   matched |-> l, recorded |-> Len(Case.events), steps |-> s.steps, polls |-> s.w.np]
+  [id |-> Run.id, status |-> IF s.w.unsup # <<>> THEN "unsupported" ELSE s.status, missing |-> s.w.unsup,
+   kind |-> s.err.kind, chain |-> s.err.chain, adm |-> s.adm, g |-> s.w.g, drift |-> drift, dexp |-> dexp,
+   matched |-> l, recorded |-> Len(Run.events), steps |-> s.steps, polls |-> s.w.np, pollsby |-> pollsby,
+   frag |-> InFragment(Run.prog), gntext |-> s.w.gntext, facts |-> facts, begun |-> s.begun, glob |-> s.glob,
+   obs |-> [n |-> FinalObs.n, dense |-> FinalObs.dense, newok |-> FinalObs.newok, conflict |-> FinalObs.conflict,
+            dangling |-> FinalObs.dangling, nedges |-> Cardinality(FinalObs.edges)]]
 
 Reported == s.status # "run" => PrintT(<<"RESULT", ToJson(Report)>>)
 
